@@ -77,7 +77,7 @@ def check(case):
             try:
                 r = OPS["rateformat"](a)
             except Exception as e:
-                return ("rateformat-raises", f"rateformat {a} raised {type(e).__name__}: every grammar rate unit must be convertible")
+                return ("rateformat-raises", f"rateformat {a} raised {type(e).__name__} ({str(e)[:160]}): every grammar rate unit must be convertible, for the reaction asked")
             want = Fraction(c)
             for i, o in zip(old, new):
                 f = fam(i)
